@@ -156,6 +156,9 @@ def run(ctx, canary=False):
     rho_grid = [1e-6, 1e-4, 1e-3, 0.01, 0.1, 0.5, 1.0, 3.0, 10.0, 100.0]
     rho_jobs = [("rho", rng.choice(eps_grid), rng.choice(delta_grid)) for _ in range(nr // 2)] + [("rho", lg(1e-3, 1e2), lg(1e-15, 0.5)) for _ in range(nr - nr // 2)]
     eps_jobs = [("eps", rng.choice(rho_grid), rng.choice(delta_grid)) for _ in range(ne // 2)] + [("eps", lg(1e-6, 1e2), lg(1e-15, 0.5)) for _ in range(ne - ne // 2)]
+    # the corners of the stated box (and points just inside them), always included
+    rho_jobs += [("rho", e_, d_) for e_ in (1e-3, 2e-3, 100.0) for d_ in (1e-15, 1e-12, 1e-9, 2e-7, 0.5)]
+    eps_jobs += [("eps", r_, d_) for r_ in (100.0, 50.0, 30.0, 1e-6) for d_ in (0.5, 0.3, 0.1, 1e-15)]
     del_jobs = [("delta", rng.choice(rho_grid), rng.choice(eps_grid)) for _ in range(nd // 2)] + [("delta", lg(1e-6, 1e2), lg(1e-3, 1e2)) for _ in range(nd - nd // 2)]
     with multiprocessing.get_context("fork").Pool(16) as pool:
         results = pool.map(job, rho_jobs + eps_jobs + del_jobs, chunksize=4)
